@@ -7,7 +7,10 @@
 (*   kind "stderr" an "At line L and column C" found in the stderr of main.execute / the smoke   *)
 (*                 tool; candidates = the starts of ALL constructs of the text (which one the     *)
 (*                 message is about is not visible in the stream);                                *)
-(*   kind "table"  the offset table the real LinenoColumner built for a tiny text.               *)
+(*   kind "table"  the offset table the real LinenoColumner built for a tiny text;                *)
+(*   kind "nonode" an error WITHOUT a construct, as rendered inside a report (L = C = 0 when it   *)
+(*                 carries no location prefix);                                                   *)
+(*   kind "raised" error_message raised instead of returning a report.                            *)
 EXTENDS Loc, Json, IOUtils, TLC
 Obs == JsonDeserialize(IOEnv.VERIF_OBS)
 VARIABLE i
@@ -24,18 +27,28 @@ Inv_Line == Located => LineOk(NL, Cands, Obs[i].L)
 Inv_NoShift == Located => ~ShiftedByOne(NL, Cands, Obs[i].L, Obs[i].C)
 Inv_Column == Located /\ LineOk(NL, Cands, Obs[i].L) => ColumnOk(NL, Cands, Obs[i].L, Obs[i].C)
 
+\* a location is claimed only for an error that has a construct: the prefix of a located error must not
+\* leak onto an un-located one rendered after it
+Inv_NoLocationWithoutConstruct == Obs[i].kind = "nonode" => Obs[i].L = 0 /\ Obs[i].C = 0
+\* the location of a located error can always be computed
+Inv_LocationComputed == Obs[i].kind # "raised"
+
 \* the real table agrees with the declarative map wherever a construct can start: at every
 \* non-newline character, and at offset 0 (the start of the module node) whatever stands there
+\* (a table may have more entries than the text has characters, e.g. one for the end of the text)
+Min2(a, b) == IF a < b THEN a ELSE b
+TableLen(n) == Min2(Len(Obs[n].positions), Len(Obs[n].txt))
 TableNL == {o \in 0..(Len(Obs[i].txt) - 1) : Obs[i].txt[o + 1] = 1}
 Inv_TableRefines ==
     Obs[i].kind = "table" =>
-        \A o \in 0..(Len(Obs[i].positions) - 1) :
+        \A o \in 0..(TableLen(i) - 1) :
             (Obs[i].txt[o + 1] # 1 \/ o = 0) => Obs[i].positions[o + 1] = Pos(TableNL, o)
 
 \* non-vacuity counters: located reports on a line after the first; tables with a character after a newline
 NLater == Cardinality({n \in 1..Len(Obs) : Obs[n].kind \in {"node", "stderr"} /\ Obs[n].L > 1})
 NFirst == Cardinality({n \in 1..Len(Obs) : Obs[n].kind \in {"node", "stderr"} /\ Obs[n].L = 1})
+NNoNode == Cardinality({n \in 1..Len(Obs) : Obs[n].kind = "nonode"})
 NTable == Cardinality({n \in 1..Len(Obs) : Obs[n].kind = "table" /\
-                          \E o \in 1..(Len(Obs[n].positions) - 1) : Obs[n].txt[o] = 1 /\ Obs[n].txt[o + 1] # 1})
-ASSUME PrintT(<<"@@PRINT@@ counters", Len(Obs), NLater, NFirst, NTable>>)
+                          \E o \in 1..(TableLen(n) - 1) : Obs[n].txt[o] = 1 /\ Obs[n].txt[o + 1] # 1})
+ASSUME PrintT(<<"@@PRINT@@ counters", Len(Obs), NLater, NFirst, NTable, NNoNode>>)
 ====
